@@ -90,6 +90,7 @@ func FaultSig(msg string) string {
 		if i := strings.LastIndex(l, "("); i > 0 {
 			l = l[:i]
 		}
+		l = strings.TrimPrefix(l, "created by ")
 		if strings.HasPrefix(l, "runtime") || strings.HasPrefix(l, "panic") || strings.Contains(l, "debug.Stack") {
 			continue
 		}
